@@ -44,8 +44,8 @@ def run(ctx: vf.Ctx):
     fold_stress(ctx, WANT, classify)
     ctx.cov['calls_with_timeline_theorem'] = ['append', 'extend', 'append_circuit', 'insert', 'insert_circuit', 'pop', 'batch_pop',
                                             'replace', 'replace_with_circuit', 'unfold', 'compress', 'append_qudit', 'insert_qudit',
-                                            'pop_qudit', 'renumber', 'clear', 'iadd', 'mul']
-    ctx.cov['calls_correspondence_only'] = ['batch_replace', 'unfold_all', 'add', 'imul', 'fold (partial lemmas)']
+                                            'pop_qudit', 'renumber', 'clear', 'add', 'iadd', 'mul', 'imul', 'unfold_all (one pass)']
+    ctx.cov['calls_correspondence_only'] = ['batch_replace', 'unfold_all (fixpoint)', 'fold (partial lemmas)']
     ctx.cov['calls_oracle_only'] = ['batch_unfold', 'copy', 'pickle']
     inverse_and_unitary(ctx)
 
